@@ -17,6 +17,18 @@ def run_scenario(sc, variant, round_tag=""):
     if sc.get("boot_from_snapshot", False):
         world["gel"] = None  # a state that has not booted yet carries no GEL graph: the loader installs the containers
     env = TurnEnv(copy.deepcopy(sc["cfg"]), world, boot_loaded=not sc.get("boot_from_snapshot", False))
+    recycled = {}
+    if variant.get("_reuse_ids"):
+        # the state's index / store objects re-created on the addresses of objects that died earlier in this process
+        from vlib.harness import reuse_address
+        for k_, oid in variant["_reuse_ids"].items():
+            cur_ = env.state.get(k_)
+            if cur_ is not None and hasattr(cur_, "__dict__"):
+                obj = reuse_address(oid, cur_)
+                if obj is not None:
+                    env.state[k_] = obj
+                    recycled[k_] = True
+            del cur_
     with env:
         vc = None
         if variant.get("vclock"):
@@ -87,6 +99,15 @@ def run_scenario(sc, variant, round_tag=""):
         out = {"lines": b["lines"], "excs": b["excs"], "logs": {k: v.decode("utf-8", "surrogateescape") for k, v in b["logs"].items()},
                "snaps": {k: v.decode("utf-8", "surrogateescape") for k, v in b["snaps"].items()},
                "tbs": [r.get("tb", "")[-600:] for r in env.results if r.get("exc")]}
+    out["_recycled"] = sorted(recycled)
+    if variant.get("_report_ids"):
+        import gc
+        out["_ids"] = {k_: id(env.state[k_]) for k_ in ("mem_index", "store") if env.state.get(k_) is not None}
+        env.state.clear()
+        env.results[:] = []
+        ctxs.clear()
+        del env
+        gc.collect()
     return out
 
 
@@ -104,7 +125,7 @@ def main():
     if variant.get("cwd"):
         os.makedirs(variant["cwd"], exist_ok=True)
         os.chdir(variant["cwd"])
-    out = None if variant.get("warm_perturbed") else run_scenario(job["scenario"], variant)
+    out = None if (variant.get("warm_perturbed") or variant.get("warm_recycled")) else run_scenario(job["scenario"], variant)
     if variant.get("warm_perturbed"):
         # first an execution under a perturbed copy of the configuration (same world and turns), result discarded
         import copy
@@ -127,6 +148,28 @@ def main():
         except Exception:
             pass  # a perturbed config the validator rejects: no primer, the variant degenerates to a plain replay
         out = run_scenario(job["scenario"], variant, "real")
+    if variant.get("warm_recycled"):
+        # first ANOTHER world of the same sizes (same ids, the contents rotated) lives and dies in this process; then the real
+        # scenario runs on a state whose index / store sit on the dead objects' addresses
+        import copy
+
+        sc2 = copy.deepcopy(job["scenario"])
+        eps = sc2["world"].get("eps") or []
+        if len(eps) >= 2:
+            rot = [dict(e) for e in eps[1:] + eps[:1]]
+            for e, r in zip(eps, rot):
+                for f_ in ("text", "ts", "aux", "owner"):
+                    if f_ in r:
+                        e[f_] = copy.deepcopy(r[f_])
+        for g in (sc2["world"].get("graphs") or {}).values():
+            for e in g.get("edges", []):
+                e[3] = 0.9 if e[3] != 0.9 else 0.3
+        ids = {}
+        try:
+            ids = run_scenario(sc2, {"_report_ids": True}, "primer").get("_ids") or {}
+        except Exception:
+            pass
+        out = run_scenario(job["scenario"], dict(variant, _reuse_ids=ids), "real")
     if variant.get("warm"):
         # second execution in the same (now warm) process on fresh states; process-global caches are NOT reset
         out = run_scenario(job["scenario"], variant, "warm")
